@@ -272,6 +272,8 @@ def run(R):
         toplevel_messages(R, L, mods, rng, quick, g)
         config_wrappers(R, L, mods, rng, quick, g)
         shard_hashes(R, L, mods, rng, quick, g)
+        if R.shard == 0:
+            shard_hashes_at_scale(R, L, mods, rng, quick, g)
         custom_block_types(R, L, mods, rng, quick, g)
         mainnet_block(R, L, mods)
     finally:
@@ -471,6 +473,41 @@ def shard_hashes(R, L, mods, rng, quick, g):
                     for path, kind, msg, where in C.diffs[:3]:
                         R.violation(f'field-differs-{where}-{kind}', f'ShardHashes: field {path}: {msg}', W)
             R.check(sl.bits.to01() == SENT_BITS and sl.remaining_refs == 0, 'consumed-wrong-amount-ShardHashes', 'deserialize_shard_hashes did not consume exactly the dictionary bit and reference', W)
+
+
+def shard_hashes_at_scale(R, L, mods, rng, quick, g):
+    """a shard tree with 2^16 (thorough also 2^17) leaves, encoded as 17 cells (both children of every fork are the same cell): every leaf comes back, in order"""
+    from pytoniq_core.tlb.utils import deserialize_shard_hashes
+    g.small = True
+    v = g.value(S.t('ShardDescr'))
+    g.small = False
+    for depth in ((16,) if quick else (15, 16, 17)):
+        w = T.W()
+        w.u(0, 1)
+        S.enc(w, S.t('ShardDescr'), v)
+        c = w.cell()
+        for _ in range(depth):
+            c = T.W().u(1, 1).ref(c).ref(c).cell()
+        top = T.W()
+        T.enc_hashmap_e(top, {0: c}, 32, lambda vw, x: vw.ref(x))
+        cell = top.cell()
+        st, o = mon.call(deserialize_shard_hashes, bridge.to_lib(cell).begin_parse())
+        R.counters['oracle_evaluations'] += 1
+        R.count('shard_hashes_at_scale')
+        W = {'type': 'ShardHashes', 'leaves': 2 ** depth, 'cells': depth + 2}
+        if st == 'exc':
+            R.exc(o)
+            R.violation(f'deserialize-raises-ShardHashes-at-scale-{type(o).__name__}', f'a BinTree of 2^{depth} shard descriptors (a valid ShardHashes) raised {o!r}', W)
+            continue
+        lst = getattr((o or {}).get(0), 'list', None)
+        if not R.check(isinstance(lst, list) and len(lst) == 2 ** depth, 'field-differs-ShardHashes-leaf-count', f'BinTree with 2^{depth} leaves came back with {len(lst) if isinstance(lst, list) else lst!r}', W):
+            continue
+        C = Cmp(R, L)
+        for i in (0, 1, 2 ** depth // 2, 2 ** depth - 1):
+            C.obj(f'$[0].list[{i}]', 'ShardDescr', v, lst[i])
+        for path, kind, msg, where in C.diffs[:3]:
+            R.violation(f'field-differs-{where}-{kind}', f'ShardHashes at scale: field {path}: {msg}', W)
+        R.case(mon.fp('shardscale', depth))
 
 
 # ------------------------------------------------------------------------------------------- hand-written composite types
